@@ -14,10 +14,10 @@ import (
 
 type wbuf struct{ b []byte }
 
-func (w *wbuf) u8(v byte)     { w.b = append(w.b, v) }
-func (w *wbuf) u32(v uint32)  { w.b = binary.LittleEndian.AppendUint32(w.b, v) }
-func (w *wbuf) raw(p []byte)  { w.b = append(w.b, p...) }
-func (w *wbuf) str(s string)  { w.u32(uint32(len(s))); w.b = append(w.b, s...) }
+func (w *wbuf) u8(v byte)    { w.b = append(w.b, v) }
+func (w *wbuf) u32(v uint32) { w.b = binary.LittleEndian.AppendUint32(w.b, v) }
+func (w *wbuf) raw(p []byte) { w.b = append(w.b, p...) }
+func (w *wbuf) str(s string) { w.u32(uint32(len(s))); w.b = append(w.b, s...) }
 func (w *wbuf) bstr(p []byte) {
 	if p == nil {
 		w.u32(0xffffffff)
